@@ -41,6 +41,8 @@ def cases(ctx):
             kw["fpr"] = np.concatenate([rng.uniform(0, 1, int(rng.integers(1, 4))), rng.choice([0.0, 1.0], 1)])
         if rng.random() < 0.3:
             kw = {k: [float(x) for x in v] for k, v in kw.items()}
+        if not kw and rng.random() < 0.15:  # empty arrays supply no points
+            kw = {str(rng.choice(["thresholds", "fnr", "fpr"])): np.zeros(0)}
         nbp = rng.choice([-1, 1, 2, 3, 10, 11, 100])
         yield {"pos": pos, "neg": neg, "ep": ep, "en": en, "sc": sc, "ec": ec, "kind": kind, "kw": kw, "nb_points": None if nbp < 0 else int(nbp),
                "x_axis": str(rng.choice(monitors.X_AXES)), "pkg": bool(rng.random() < 0.5),
